@@ -65,6 +65,11 @@ CLAIMED = {
         note="Forward hologram == public calc_holo for the substituted scatterer/theory/optics (incl. scaling and pixel subsets) is search-only (substitution itself is C11); per-channel noise with unequal pixel counts is outside the Gaussian-normaliser theorem; label-free per-channel noise lists given to the model are a known finding.",
         technique="Lean 4 theorems (list induction, log algebra) + differential correspondence with counting calc_func + search against scipy.stats.norm.logpdf",
         ref="DESIGN.md §5 C12"),
+    "C15": dict(
+        text="Proof (Lean 4, core + list lemmas): for the model of _iteritems / representers / constructors with the constructor-signature table REGENERATED from the source by inspect — construct(represent o) = normalise o for every well-formed (arbitrarily nested) object, where normalise turns tuples and arrays into lists, numpy scalars into Python scalars and a None-valued argument into that argument's default (mutual structural induction incl. the dictionary-lookup lemmas); hence save -> load is the identity up to the property's equivalence exactly when every None-valued argument has default None, and then re-saving reproduces the identical node unless an np.complex128 is present (both exceptions are stated as kernel-checked counterexamples and are known findings); `decide +kernel` over the regenerated table shows that the arguments holopy routinely leaves None (scatterer n/center, priors' name/guess, model optics, strategies' npixels...) do have default None and that argument names are distinct. Tied by exact correspondence of the YAML node tree and of the reloaded object's constructor arguments on generated objects of every generic class.",
+        note="PyYAML's node<->text step is assumed faithful (sampled through real files and streams, 1-3 cycles); Model objects (own _iteritems/from_yaml) are search-only: names, ties, maps, constraints, identical text; float formatting and numpy scalar types without representer are search-only.",
+        technique="Lean 4 theorems over a model parametrised by a table regenerated from source + exact node/object correspondence + save/load search",
+        ref="DESIGN.md §5 C15"),
 }
 
 NOT_YET = {}
